@@ -14,7 +14,8 @@
    `no_custom_wildcard w n` = the wildcard host covering n, if some ingress declares tls
    for it, resolves to the default certificate. *)
 From Coq Require Import List Bool String ZArith.
-From HI Require Import Model.Tracker Model.Conv Model.CrtList Proofs.ConvHist Proofs.CrtList.
+From HI Require Import Model.Tracker Model.Conv Model.CrtList Proofs.ConvHist Proofs.CrtList
+                       Proofs.CrtList_e2e Proofs.CrtList_gen.
 Import ListNotations.
 Open Scope string_scope.
 
@@ -157,3 +158,112 @@ Theorem C15_cert_update_dynamic_quiet_iff :
    (hv_hash old = hv_hash new \/ hv_file new = "")).
 Proof. exact @cert_update_dynamic_quiet_iff. Qed.
 Print Assumptions C15_cert_update_dynamic_quiet_iff.
+
+(* ================================================================== *)
+(* Composition: Conv -> CrtList -> sni_select                          *)
+(* ================================================================== *)
+(* `declared_cert w n` = the certificate the deciding declaration of n resolves to
+   (ref_cert of effective_ref, else DEFAULT).  For every cluster of the Conv.v subset: the
+   names the crt-list is generated from are exactly the hosts of the state the converter
+   model builds, and HAProxy's selection on the generated list serves, for every SNI, the
+   certificate of the secret the winning declaration names. *)
+Theorem C15_end_to_end : forall w,
+  (forall h, In h (host_names w) <-> get_host (fst (sync_full w)) h <> None) /\
+  (forall n, name_ok n ->
+     sni_select (crt_list (host_names w) (fst (sync_full w))) n = declared_cert w n).
+Proof. exact end_to_end. Qed.
+Print Assumptions C15_end_to_end.
+
+(* the same after every well formed history of partial syncs (C01_model_history_general) *)
+Theorem C15_end_to_end_history : forall (w0 : world) (h : list (batch * world)),
+  hist_ok_g w0 h ->
+  exists x', run_hist (sync_full w0) h = Some x' /\
+    (forall hn, In hn (host_names (last_w w0 h)) <-> get_host (fst x') hn <> None) /\
+    (forall n, name_ok n ->
+       sni_select (crt_list (host_names (last_w w0 h)) (fst x')) n = declared_cert (last_w w0 h) n).
+Proof. exact end_to_end_history. Qed.
+Print Assumptions C15_end_to_end_history.
+
+(* ... and after every prefix of it: at no step of a history a stale certificate is served *)
+Theorem C15_end_to_end_every_step : forall (w0 : world) (h1 h2 : list (batch * world)),
+  hist_ok_g w0 (h1 ++ h2) ->
+  exists x1, run_hist (sync_full w0) h1 = Some x1 /\
+    forall n, name_ok n ->
+      sni_select (crt_list (host_names (last_w w0 h1)) (fst x1)) n = declared_cert (last_w w0 h1) n.
+Proof. exact end_to_end_every_step. Qed.
+Print Assumptions C15_end_to_end_every_step.
+
+(* ================================================================== *)
+(* Rotation: delete, re-create, replicated secrets                     *)
+(* ================================================================== *)
+Theorem C15_rotation_delete : forall w k n, name_ok n -> k <> "" ->
+  (effective_ref w n = Some k -> served (without_secret w k) n = default_crt) /\
+  (effective_ref w n <> Some k -> served (without_secret w k) n = served w n).
+Proof. exact rotation_delete. Qed.
+Print Assumptions C15_rotation_delete.
+
+Theorem C15_rotation_recreate : forall w k c n, name_ok n -> k <> "" ->
+  (effective_ref w n = Some k -> served (with_secret (without_secret w k) k c) n = c) /\
+  (effective_ref w n <> Some k -> served (with_secret (without_secret w k) k c) n = served w n).
+Proof. exact rotation_recreate. Qed.
+Print Assumptions C15_rotation_recreate.
+
+(* identical content under two keys (a certificate replicated into two namespaces):
+   whatever happens to k1, the names decided by k2 stay served with that content *)
+Theorem C15_rotation_replicated : forall w w' k1 k2 c n, name_ok n ->
+  k1 <> k2 -> k2 <> "" ->
+  assoc k2 (w_secrets w) = Some c ->
+  w_ings w' = w_ings w ->
+  (forall k', k' <> k1 -> assoc k' (w_secrets w') = assoc k' (w_secrets w)) ->
+  effective_ref w n = Some k2 ->
+  served w' n = c.
+Proof. exact rotation_replicated. Qed.
+Print Assumptions C15_rotation_replicated.
+
+Theorem C15_history_rotation_replicated :
+  forall (w0 : world) (h : list (batch * world)) (w : world) (k1 k2 c : string),
+  hist_ok_g w0 h ->
+  k1 <> k2 -> k2 <> "" ->
+  assoc k2 (w_secrets w) = Some c ->
+  w_ings (last_w w0 h) = w_ings w ->
+  (forall k', k' <> k1 -> assoc k' (w_secrets (last_w w0 h)) = assoc k' (w_secrets w)) ->
+  exists x', run_hist (sync_full w0) h = Some x' /\
+    forall n, name_ok n -> effective_ref w n = Some k2 ->
+      served_in (host_names (last_w w0 h)) (fst x') n = c.
+Proof. exact history_rotation_replicated. Qed.
+Print Assumptions C15_history_rotation_replicated.
+
+(* ================================================================== *)
+(* Hosts level: ANY source of certificates and bind options            *)
+(* ================================================================== *)
+(* crt_list_gen d l = the crt-list of WriteFrontendMaps for the hosts l of the haproxy model
+   (ingress tls, Gateway listeners, auth-tls / alpn / ciphers options, ssl-passthrough,
+   ssl-always-add-https), d the default certificate file.  A host that terminates TLS is
+   served with its own certificate file, the default one if it has none. *)
+Theorem C15_hosts_serves_own : forall d l h,
+  NoDup (map hc_name l) -> In h l -> name_ok (hc_name h) ->
+  hc_pass h = false -> (hc_hastls h = true \/ hc_custom d h = true) ->
+  served_gen d l (hc_name h) = gen_crtfile d h.
+Proof. exact gen_serves_own. Qed.
+Print Assumptions C15_hosts_serves_own.
+
+Theorem C15_hosts_passthrough_no_line : forall d l h g,
+  NoDup (map hc_name l) -> In h l -> hc_pass h = true -> is_neg (hc_name h) = false ->
+  In g (crt_list_gen d l) -> gl_filter g <> hc_name h.
+Proof. exact gen_passthrough_no_line. Qed.
+Print Assumptions C15_hosts_passthrough_no_line.
+
+Theorem C15_hosts_line_options : forall d l h,
+  hc_pass h = false -> hc_custom d h = true ->
+  gen_line d l h = Some {| gl_crt := gen_crtfile d h; gl_opts := hc_bind h; gl_filter := hc_name h |}.
+Proof. exact gen_line_options. Qed.
+Print Assumptions C15_hosts_line_options.
+
+(* the converter-level crt-list of the theorems above is the hosts-level one applied to
+   the hosts of the converter model *)
+Theorem C15_hosts_refines : forall w,
+  (forall k c, In (k, c) (w_secrets w) -> c <> "") ->
+  forall n, name_ok n ->
+    served_gen default_crt (map (hcfg_of (fst (sync_full w))) (host_names w)) n = served w n.
+Proof. exact gen_refines_full. Qed.
+Print Assumptions C15_hosts_refines.
